@@ -58,7 +58,7 @@ Theorem C03_words_stay_markup_vanishes : forall rd fuel toks st st' out,
   macros st' = macros st.
 Proof.
   exact (fun rd fuel toks st st' out =>
-           exec_args_text py_tables rd (eq_refl true) (fun c => eq_refl) fuel toks st st' out
+           exec_args_text py_tables rd (eq_refl true) (fun c => eq_refl) (conj eq_refl eq_refl) fuel toks st st' out
                           (eq_refl true)).
 Qed.
 Print Assumptions C03_words_stay_markup_vanishes.
